@@ -1,5 +1,5 @@
 CONSTANTS P = 103  A = 0  B = 5  Gx = 2  Gy = 42  N = 97  Mode = "recover"  RMax = 104
 CONSTANT ESet <- EAll
 SPECIFICATION Spec
-INVARIANT RecoverOk
+INVARIANT Holds
 CHECK_DEADLOCK FALSE
